@@ -37,7 +37,7 @@ Why(c) ==
                IN want # got THEN "transactions-differ-from-valued-journal"
      ELSE IF c.exact /\ \E n \in 1..Len(es) : es[n].k = "trx" /\ ~\E d \in 1..Len(fin.trace) : fin.trace[d].z = es[n].z THEN "transaction-on-a-day-without-directives"
      ELSE IF unopened # {} THEN
-          (IF \A a \in unopened : c.ty[a] = "I" /\ \E b \in Accts(c) : IsAL(c.ty, b) /\ ValAcct(c, b) = a
+          (IF \A a \in unopened : a \in DOMAIN c.ty /\ c.ty[a] = "I" /\ \E b \in Accts(c) : IsAL(c.ty, b) /\ ValAcct(c, b) = a
                                   /\ \A m \in 1..Len(es) : Uses(es[m], a) => \E p \in 1..Len(es[m].post) : es[m].post[p].a = a /\ c.obs.adjust[m]
            THEN "valuation-account-never-opened" ELSE "account-used-without-open")
      ELSE "ok"
